@@ -4,6 +4,7 @@
 """
 import argparse
 import itertools
+from spec import x690
 import json
 import sys
 import time
@@ -44,6 +45,10 @@ def build(tagging, container, governor, govmode='req'):
     else:
         blob = namedtype.NamedType('blob', univ.SetOf(componentType=any_), openType=ot)
     cls = univ.Sequence if container not in ('set', 'set-setof') else univ.Set
+    if container in ('set', 'set-setof'):
+        # a governor whose tag sorts between UNIVERSAL (the inner values) and the field's [3]: the canonical SET order is
+        # by the tags on the wire -- the field's, not the inner value's
+        gov = gov.subtype(implicitTag=tag.Tag(tag.tagClassContext, tag.tagFormatSimple, 1))
     if govmode == 'req':
         idt = namedtype.NamedType('id', gov)
     elif govmode == 'default':
@@ -114,7 +119,7 @@ def run(tier):
             constructed = not isinstance(inner, (univ.Integer, univ.OctetString))
             v = spec.clone()
             if govmode != 'default':
-                v['id'] = key
+                v['id'] = spec.componentType['id'].asn1Object.clone(key)
             try:
                 if container in ('setof', 'set-setof'):
                     v['blob'].append(inner)
@@ -134,6 +139,19 @@ def run(tier):
                     fails.append(rec('%s: encoder raised %s: %s' % (desc, type(ex).__name__, str(ex)[:120]), codec=cname,
                                      tagging=tagging, container=container, constructed=constructed))
                     continue
+                # 0. canonical SET order (DER): members by the (class, number) of the tag each starts with
+                if cname == 'DER' and container in ('set', 'set-setof'):
+                    n += 1
+                    try:
+                        t = x690.read_tlv(e, 0)
+                        order = [(c[1], c[3]) for c in x690.children(e, t[3], t[4])]
+                        if order != sorted(order):
+                            fails.append(rec('%s: SET members are not in canonical order on the wire: %r' % (desc, order),
+                                             codec=cname, tagging=tagging, container=container, constructed=constructed,
+                                             enc={'hex': e.hex()}))
+                    except Exception as ex:
+                        fails.append(rec('%s: reference reader failed on the DER output: %s' % (desc, type(ex).__name__),
+                                         codec=cname, tagging=tagging, container=container, constructed=constructed))
                 # 1. resolution on
                 try:
                     r, rest = dec.decode(e, asn1Spec=spec, decodeOpenTypes=True)
@@ -173,7 +191,7 @@ def run(tier):
                         for order in ((0, 1), (1, 0)):
                             v2 = spec.clone()
                             if govmode != 'default':
-                                v2['id'] = key
+                                v2['id'] = spec.componentType['id'].asn1Object.clone(key)
                             items = [r0['blob'][0], inner]
                             for k in order:
                                 v2['blob'].append(items[k])
@@ -236,7 +254,7 @@ def empty_inner(codecs):
                                                        namedtype.OptionalNamedType('blob', any_, openType=ot)))
         for key, inner in ((1, so_t.clone().clear()), (2, rec_t.clone().clear())):
             v = spec.clone()
-            v['id'] = key
+            v['id'] = spec.componentType['id'].asn1Object.clone(key)
             v['blob'] = inner
             for cname, enc, dec in codecs:
                 n += 1
